@@ -193,12 +193,22 @@ struct CntE {
     static int id(const Counted& x) { return x.val(); }
     static size_t nativeHash(const Counted& x) { return (size_t)(unsigned)x.val() * 2654435761u; }
 };
+// C-string keys with the key traits the library itself declares for const XalanDOMChar* (hash_null_terminated_array,
+// equal_null_terminated_arrays): what the native source tree keeps its ID table in.  The strings live in a pool that is never released.
+struct CStrE {
+    typedef const xalanc::XalanDOMChar* T; static const char* name() { return "cstring"; } enum { counted = 0 };
+    static const xalanc::XalanDOMChar* intern(int id) { static std::map<int, std::u16string> pool; auto it = pool.find(id); if (it == pool.end()) it = pool.emplace(id, strOf(id)).first; return (const xalanc::XalanDOMChar*)it->second.c_str(); }
+    struct Val { const xalanc::XalanDOMChar* x; Val(int id, MemoryManager&) : x(intern(id)) {} };
+    static int id(const xalanc::XalanDOMChar* const& x) { size_t n = 0; while (x[n]) ++n; return idOfStr((const char16_t*)x, n); }
+    static size_t nativeHash(const xalanc::XalanDOMChar* const& x) { return xalanc::hash_null_terminated_array<xalanc::XalanDOMChar>()(x); }
+};
 template <class E> struct HashOf {
     size_t operator()(const typename E::T& k) const {
         switch (hashMode()) { case 1: return (size_t)((unsigned)E::id(k) % 3u); case 2: return 7; default: return E::nativeHash(k); }
     }
 };
 template <class E> struct KeyTraitsOf { typedef HashOf<E> Hasher; typedef std::equal_to<typename E::T> Comparator; };
+template <> struct KeyTraitsOf<CStrE> { typedef HashOf<CStrE> Hasher; typedef xalanc::equal_null_terminated_arrays<xalanc::XalanDOMChar> Comparator; };
 
 } // namespace c20
 
